@@ -31,6 +31,7 @@ type c30Case struct {
 	Ciphers    string // nil | tls12 | default
 	Insecure   bool   `json:"insecure,omitempty"` // InsecureSkipVerify / PreferServerCipherSuites set (must not weaken the listener)
 	Rotation   bool   `json:"rotation,omitempty"`
+	After      string `json:"after,omitempty"` // rotation only: a runtime update made before the rotation (export | policy | tuning | twice)
 }
 
 type c30PKI struct {
@@ -201,6 +202,30 @@ func c30One(c *vCtx, p *c30PKI, cs c30Case) {
 			bad("rotation-setup-handshake-fails", fmt.Sprint(err))
 			return
 		}
+		// an unrelated runtime update before the rotation: the settings object handed out
+		// afterwards must still reach the listener
+		upd := func() {
+			switch cs.After {
+			case "export", "twice":
+				o := nfs.GetExportOptions()
+				o.ReadOnly = !o.ReadOnly
+				if err := nfs.UpdateExportOptions(o); err != nil {
+					bad("rotation-setup-update-fails", err.Error())
+				}
+			case "policy":
+				po := *nfs.policy.Load()
+				po.ReadOnly = !po.ReadOnly
+				if err := nfs.UpdatePolicyOptions(po); err != nil {
+					bad("rotation-setup-update-fails", err.Error())
+				}
+			case "tuning":
+				nfs.UpdateTuningOptions(func(t *TuningOptions) { t.TransferSize = 32768 })
+			}
+		}
+		upd()
+		if cs.After == "twice" {
+			upd()
+		}
 		p.writeServer("server-two")
 		defer p.writeServer("server-one")
 		opts := nfs.GetExportOptions()
@@ -218,7 +243,11 @@ func c30One(c *vCtx, p *c30PKI, cs c30Case) {
 			return
 		}
 		if cn2 != "server-two" {
-			bad("rotation-not-effective", fmt.Sprintf("after replacing the certificate files and calling GetExportOptions().TLS.ReloadCertificates() a new handshake still presents %q (before: %q), expected the reloaded certificate \"server-two\"", cn2, cn1))
+			sg := "rotation-not-effective"
+			if cs.After != "" {
+				sg += "|after-update=" + cs.After
+			}
+			bad(sg, fmt.Sprintf("(runtime update before the rotation: %q) after replacing the certificate files and calling GetExportOptions().TLS.ReloadCertificates() a new handshake still presents %q (before: %q), expected the reloaded certificate \"server-two\"", cn2, cn1))
 		}
 		c.outcome("rotation:" + cn2)
 		return
@@ -261,7 +290,7 @@ func init() {
 	vRegister(&vCheck{
 		id: "C30", level: "exploration", flavour: "plain",
 		shards: func(string) int { return 10 },
-		rule: "complete product: MinVersion x MaxVersion in {0,1.0,1.1,1.2,1.3}^2 x ClientAuth (all 5 modes) x CA file {none, CA} x {InsecureSkipVerify+PreferServerCipherSuites unset; set (quick: for the version ranges unset and 1.2..1.3; thorough: all)} x cipher list {nil (quick); + explicit TLS1.2 list, DefaultTLSConfig list (thorough)}; every configuration New/Listen accept is started on loopback and attacked by 16 clients: offering exactly one protocol version in {1.0,1.1,1.2,1.3} x client certificate {none, self-signed, CA-signed, signed by a foreign CA}; 'handshake completed' = a NULL RPC sent over the TLS connection is answered. Oracle: completed => negotiated >= TLS 1.2; RequireAndVerifyClientCert with a CA => only the CA-signed client completes (likewise VerifyIfGiven rejects bad certificates, RequireAny rejects no certificate). Rotation: certificate files replaced, GetExportOptions().TLS.ReloadCertificates() called as documented, a new handshake must present the new leaf. Certificates (ECDSA P-256) are generated at run time and removed.",
+		rule: "complete product: MinVersion x MaxVersion in {0,1.0,1.1,1.2,1.3}^2 x ClientAuth (all 5 modes) x CA file {none, CA} x {InsecureSkipVerify+PreferServerCipherSuites unset; set (quick: for the version ranges unset and 1.2..1.3; thorough: all)} x cipher list {nil (quick); + explicit TLS1.2 list, DefaultTLSConfig list (thorough)}; every configuration New/Listen accept is started on loopback and attacked by 16 clients: offering exactly one protocol version in {1.0,1.1,1.2,1.3} x client certificate {none, self-signed, CA-signed, signed by a foreign CA}; 'handshake completed' = a NULL RPC sent over the TLS connection is answered. Oracle: completed => negotiated >= TLS 1.2; RequireAndVerifyClientCert with a CA => only the CA-signed client completes (likewise VerifyIfGiven rejects bad certificates, RequireAny rejects no certificate). Rotation: certificate files replaced, GetExportOptions().TLS.ReloadCertificates() called as documented, a new handshake must present the new leaf; also after an unrelated runtime update (UpdateExportOptions once / twice, UpdatePolicyOptions, UpdateTuningOptions) made before the rotation. Certificates (ECDSA P-256) are generated at run time and removed.",
 		assumptions: []string{"the configuration and client space is enumerated completely; each handshake is one real execution of the Go TLS stack", "RequireAndVerifyClientCert without a CA file is not judged (no configured CA)"},
 		run: func(c *vCtx) {
 			p := c30NewPKI()
@@ -299,7 +328,9 @@ func init() {
 			}
 			if c.shard == 0 {
 				for _, auth := range []int{0, 4} {
-					c30One(c, p, c30Case{Min: tls.VersionTLS12, Max: tls.VersionTLS13, ClientAuth: auth, CA: true, Ciphers: "nil", Rotation: true})
+					for _, after := range []string{"", "export", "policy", "tuning", "twice"} {
+						c30One(c, p, c30Case{Min: tls.VersionTLS12, Max: tls.VersionTLS13, ClientAuth: auth, CA: true, Ciphers: "nil", Rotation: true, After: after})
+					}
 				}
 			}
 			c.res.Bounds["configurations"] = idx
